@@ -23,6 +23,8 @@ package zapcore
 import (
 	"sync/atomic"
 	"time"
+
+	"go.uber.org/zap/internal/verifhook"
 )
 
 const (
@@ -69,6 +71,7 @@ func (c *counter) IncCheckReset(t time.Time, tick time.Duration) uint64 {
 	}
 
 	c.counter.Store(1)
+	verifhook.Point("sampler.reset.between")
 
 	newResetAfter := tn + tick.Nanoseconds()
 	if !c.resetAt.CompareAndSwap(resetAfter, newResetAfter) {
